@@ -104,7 +104,7 @@ class Route:
                 # a filter may look ahead into the literal that follows it (`path`)
                 nxt = pattern_out.find('\r', cidx)
                 tail = pattern_out[cidx:nxt] if nxt >= 0 else pattern_out[cidx:]
-                assert f_in(prt + tail)[1]  # `pos` must be > 0 if match
+                assert f_in(prt + tail)[0] is not None  # no value means no match (a filter may accept the empty text: pos 0)
             ret.append(prt)
 
         if clen:
